@@ -426,11 +426,14 @@ func main() {
 	var kc cbCounters
 	runCoinbaseContext(r, f, &kc, classes, samples)
 
+	var xc xcCounters
+	runCrossChain(r, f, &xc, classes, samples)
+
 	f.close()
 	cleanup()
 
-	evals := cc.evals + rc.evals + ac.evals + bc.evals + wc.evals + kc.evals
-	nontrivial := kc.accepted + kc.panics + wc.accepted + wc.panics + cc.stdTrue + cc.schTrue + cc.msTrue + cc.panicsReach + rc.accepted + rc.panics + ac.accepted + ac.panics + bc.accepted + bc.panics
+	evals := xc.evals + cc.evals + rc.evals + ac.evals + bc.evals + wc.evals + kc.evals
+	nontrivial := xc.ctxAccepted + xc.ctxRejected + xc.panics + kc.accepted + kc.panics + wc.accepted + wc.panics + cc.stdTrue + cc.schTrue + cc.msTrue + cc.panicsReach + rc.accepted + rc.panics + ac.accepted + ac.panics + bc.accepted + bc.panics
 	r.Assume = append(r.Assume,
 		"RunPrograms precondition = what DefaultChecker.CheckAttributeProgram guarantees (code >= 23 bytes, non-nil parameter, Schnorr code only from NormalSchnorrStartHeight); each panic is re-validated through BlockChain.CheckTransactionSanity at mainnet height 2300000 before it is reported",
 		"classifier panics on code shorter than 23 bytes are counted (classifier_panics_unreachable) but not alarmed: no call site hands such code to the classifiers",
@@ -446,6 +449,7 @@ func main() {
 			"RunPrograms: 7 address prefixes x code kinds (valid/invalid standard, schnorr, multisig, cross-chain, all truncations >=23 bytes, garbage) x hash match/mismatch x parameter length 0..130 x {zero, valid-signature prefix} contents; " +
 			"AuxPow.Check after a wire round trip: parent coinbase TxIn 0..2 x aux branch 0..40 x size field menu x script tail lengths x marker nibble offsets x aux index menu x nonce menu x parent merkle index menu; " +
 			"WithdrawFromSideChain v2 SpecialContextCheck after a wire round trip: signer lists {0,1,n-1,n,255}^<=3 and (quorum-3 valid indexes)+{0,1,n-1,n,255}^3 x {mainnet current, mainnet below restriction height, TestNet parameters}; " +
+			"TransferCrossChainAsset after a wire round trip: {mainnet <= NewCrossChainStartHeight, mainnet current, RegNet parameters low/high height} x payload version {0,1,2} x tx version {0,9} x outputs 1..3 x OutputIndexes lists of length 0..2 over {0,1,len-1,len,len+1,2^31-1,2^31,2^32-1,2^63-1,2^63,2^64-1} through SanityCheck -> SpecialContextCheck -> IsSmallTransfer, each step only if the previous one accepted; " +
 			"checkCoinbaseTransactionContext (hook VerifCheckCoinbaseContext) after a wire round trip of the coinbase: 4 reward regimes {pre-DPoS, H2 with v2 not activated, H2 at the activation boundary, DPoSv2 active} x consensus {DPOS, POW} x fee totals {0,1,10000,123456789} x 3 exactly-correct base coinbases (v2 / H2 / pre-DPoS rule, plus a 4th extra output) x every ordered subset (0..4 outputs) x {exact, each present value +-1, address swaps, value swap}; a panic counts only if CheckTransactionSanity accepts the coinbase; " +
 			"CheckBlockSanity after a wire round trip: 3 height regimes x coinbase {version, outputs 0..4, values, inputs, programs, content, attribute} full product + one deviating second transaction + structural shapes. " +
 			"non-trivial = classifier-true + accepted + panicking inputs",
@@ -467,6 +471,11 @@ func main() {
 		"auxpow_accepted":                 ac.accepted,
 		"auxpow_rejected":                 ac.rejected,
 		"auxpow_panics":                   ac.panics,
+		"crosschain_checks":               xc.evals,
+		"crosschain_sanity_rejected":      xc.sanityRejected,
+		"crosschain_context_accepted":     xc.ctxAccepted,
+		"crosschain_context_rejected":     xc.ctxRejected,
+		"crosschain_panics":               xc.panics,
 		"coinbasectx_checks":              kc.evals,
 		"coinbasectx_accepted":            kc.accepted,
 		"coinbasectx_rejected":            kc.rejected,
@@ -531,6 +540,10 @@ func replay(r *evid.Run, f *fixture) {
 		raw, _ := hex.DecodeString(a["block"].(string))
 		var bc blkCounters
 		f.evalBlockBytes(r, fmt.Sprint(a["desc"]), raw, &bc, classes, samples)
+	case "crosschain":
+		fmt.Println("cross-chain artefacts are re-derived by the enumeration: running seam 7 only")
+		var xc xcCounters
+		runCrossChain(r, f, &xc, classes, samples)
 	case "coinbasectx":
 		fmt.Println("coinbase-context artefacts are re-derived by the enumeration: running seam 6 only")
 		installArbiters(f)
